@@ -1,13 +1,14 @@
-"""Copy a sub-agent's seeded change into /verif/seeded/<id>/ with a meta.json skeleton."""
+"""Copy a sub-agent's seeded change into /verif/seeded/<id>/ with a meta.json skeleton.
+usage: import_seeded.py <base dir e.g. /tmp/mut2> <prop> <k> <id>"""
 import json, shutil, sys
 from pathlib import Path
-prop, k = sys.argv[1], sys.argv[2]
-src = Path(f"/tmp/mut/{prop}/out/{k}")
-dst = Path(f"/verif/seeded/{prop}-{k}")
+base, prop, k, sid = sys.argv[1:5]
+src = Path(f"{base}/{prop}/out/{k}")
+dst = Path(f"/verif/seeded/{sid}")
 dst.mkdir(parents=True, exist_ok=True)
 for n in ("patch.diff", "demo.py", "notes.md"):
     shutil.copy(src / n, dst / n)
-meta = dict(property=prop, author_worktree=f"/tmp/mut/{prop}", origin="fresh sub-agent given only the property text and a scratch worktree",
+meta = dict(property=prop, author_worktree=f"{base}/{prop}", origin="fresh sub-agent given only the property text and a scratch worktree",
             needs_to_manifest=(src / "notes.md").read_text()[:1500], confirmed=None, ran=[])
 (dst / "meta.json").write_text(json.dumps(meta, indent=1))
 print(dst)
